@@ -61,6 +61,32 @@ def calls (cfg : Cfg α) (add : V → V → V) (inc : α → V → α → V) (fu
   | s, [] => s
   | s, t :: rest => calls cfg add inc fuel (integrate cfg add inc s t fuel) rest
 
+/-- **Any explicit one-step method, any step-size control**: the integrator hands back `dState = inc(t, y, dTime)` for the step
+it finally accepted, and the loop records `t + dTime` and `y + dState`; so the recorded states are a function of the recorded
+times (newest first) and the first state, whatever was rejected or retried in between -/
+def ysOf [Sub α] (add : V → V → V) (inc : α → V → α → V) (y0 : V) : List α → List V
+  | [] => []
+  | [_] => [y0]
+  | t' :: t :: rest =>
+    match ysOf add inc y0 (t :: rest) with
+    | y :: ys => add y (inc t y (t' - t)) :: y :: ys
+    | [] => []
+
+/-- `integrate(target)` with an explicit one-step method under ANY environment (adaptive controller, faults, callbacks):
+the time-grid machine with the oracle, the states recomputed from the recorded times -/
+def integrateO (cfg : Cfg α) (add : V → V → V) (inc : α → V → α → V) (y0 : V) (s : Sys α) (target : α) (orc : Oracle α) (fuel : Nat) :
+    SysY α V :=
+  let out := Loop.integrate cfg s target orc fuel
+  { sys := out.sys, ys := ysOf add inc y0 out.sys.ts }
+
+/-- a fixed-step integrator whose `j`-th call (counted within one `integrate`) raises: a fault of the user's right-hand side -/
+def faultOrc (j : Nat) : Oracle α := fun k _ h => if k == j then { ret := .raise } else { ret := .ok h h }
+
+/-- `integrate(target)` abandoned by a fault in its `j`-th integrator call -/
+def integrateFault [Sub α] (cfg : Cfg α) (add : V → V → V) (inc : α → V → α → V) (s : SysY α V) (target : α) (j fuel : Nat) : SysY α V :=
+  let out := Loop.integrate cfg s.sys target (faultOrc j) fuel
+  { sys := out.sys, ys := match s.ys.getLast? with | some y0 => ysOf add inc y0 out.sys.ts | none => [] }
+
 /-- the increment of one step of an explicit Runge–Kutta table (zeroed stage storage: for an explicit
 table no stage reads storage that this pass has not written, `DVP.RK.computeStep_spec`) -/
 def rkInc (ops : RK.VOps α V) (f : α → V → V) (c : List α) (A : List (List α)) (b : List α) (fsal : Bool) : α → V → α → V :=
